@@ -522,10 +522,72 @@ def _bind_strict(ck: Check, prog: Program) -> None:
                     else:
                         return False, f'`{norm(v)[:60]}` is neither `{par_param}` nor an empty container'
                 return (seen_param and seen_empty), ' | '.join(al.text()[:60] for al in alts)
+            def shape_by_type(e: ast.expr, kinds: Set[str]) -> Optional[bool]:
+                """Second reading, for `default; if isinstance(...): override` forms: per container type of the params, resolve every
+                type test on them and see which assignment of the splatted local reaches the bind call on the remaining paths."""
+                if not isinstance(e, ast.Name):
+                    return None
+                var = e.id
+                defs = [m for m in cfg.stmt_nodes() if m.kind == 'stmt' and isinstance(m.ast, (ast.Assign, ast.AnnAssign)) and
+                        var in assigned_names(m)]
+                if not defs:
+                    return None
+
+                def value_of(m) -> Optional[ast.expr]:
+                    a = m.ast
+                    if isinstance(a, ast.AnnAssign):
+                        return a.value
+                    tg = a.targets[0]
+                    if isinstance(tg, ast.Name):
+                        return a.value
+                    if isinstance(tg, (ast.Tuple, ast.List)) and isinstance(a.value, (ast.Tuple, ast.List)) and len(tg.elts) == len(a.value.elts):
+                        for t_, v_ in zip(tg.elts, a.value.elts):
+                            if isinstance(t_, ast.Name) and t_.id == var:
+                                return v_
+                    return None
+                for tag in ('list', 'tuple', 'dict', 'NoneType', 'str'):
+                    avoid = []
+                    for c_ in cfg.nodes:
+                        if c_.kind != 'cond':
+                            continue
+                        t_, neg = c_.ast, False
+                        while isinstance(t_, ast.UnaryOp) and isinstance(t_.op, ast.Not):
+                            t_, neg = t_.operand, not neg
+                        truth = None
+                        if isinstance(t_, ast.Call) and dotted(t_.func) == 'isinstance' and len(t_.args) == 2 and dotted(t_.args[0]) == par_param:
+                            tp = t_.args[1]
+                            names = {dotted(x) for x in (tp.elts if isinstance(tp, ast.Tuple) else [tp])}
+                            if names <= {'list', 'tuple', 'dict', 'str', 'bytes', 'set', 'frozenset', 'float', 'int'}:
+                                truth = tag in names
+                        elif isinstance(t_, ast.Compare) and len(t_.ops) == 1 and isinstance(t_.ops[0], (ast.Is, ast.IsNot)) and \
+                                dotted(t_.left) == par_param and isinstance(t_.comparators[0], ast.Constant) and t_.comparators[0].value is None:
+                            truth = (tag == 'NoneType') == isinstance(t_.ops[0], ast.Is)
+                        if truth is None:
+                            continue
+                        taken = truth != neg
+                        avoid += [ed for ed in cfg.succ[c_.id] if ed.label in ('T', 'F') and (ed.label == 'T') != taken]
+                    feasible = cfg.reachable(cfg.entry, avoid_edges=avoid)
+                    if n.id not in feasible:
+                        continue
+                    reaching = [d for d in defs if d.id in feasible and
+                                (n.id in cfg.reachable(d, avoid_nodes=[x for x in defs if x is not d], avoid_edges=avoid))]
+                    for d in reaching:
+                        v = value_of(d)
+                        is_param = v is not None and dotted(v) == par_param
+                        is_empty = isinstance(v, (ast.Tuple, ast.List, ast.Dict)) and not getattr(v, 'elts', getattr(v, 'keys', []))
+                        if tag in kinds and not is_param or tag not in kinds and not is_empty:
+                            return False
+                    if not reaching:
+                        return False
+                return True
             okp, whyp = shape(stars[0], {'list', 'tuple'})
+            if not okp and shape_by_type(stars[0], {'list', 'tuple'}):
+                okp = True
             if not okp:
                 problems.append((c.lineno, f'positional arguments must be `params if isinstance(params, (list, tuple)) else ()`, found {whyp}'))
             okk, whyk = shape(dstars[0], {'dict'})
+            if not okk and shape_by_type(dstars[0], {'dict'}):
+                okk = True
             if not okk:
                 problems.append((c.lineno, f'named arguments must be `params if isinstance(params, dict) else {{}}`, found {whyk}'))
         # the BoundArguments object is handed back as Signature.bind made it: no defaults filled in, nothing added or removed
